@@ -27,7 +27,20 @@ def gen_val(rng, depth, top=True):
             return float(rng.randint(-3, 3))
         shape = tuple(rng.choice([1, 2, 3]) for _ in range(rng.randint(0, 2)))
         n = int(onp.prod(shape)) if shape else 1
-        return onp.array([float(rng.randint(-3, 3)) for _ in range(n)]).reshape(shape)
+        a = onp.array([float(rng.randint(-3, 3)) for _ in range(n)]).reshape(shape)
+        # same values, other memory layouts: Fortran order, a transposed view, a strided / reversed view
+        lay = rng.random()
+        if len(shape) == 2 and lay < 0.25:
+            a = onp.asfortranarray(a)
+        elif len(shape) == 2 and lay < 0.4:
+            a = onp.ascontiguousarray(a.T).T
+        elif len(shape) >= 1 and lay < 0.5:
+            big = onp.zeros(tuple(2 * d for d in shape))
+            big[tuple(slice(None, None, 2) for _ in shape)] = a
+            a = big[tuple(slice(None, None, 2) for _ in shape)]
+        elif len(shape) >= 1 and lay < 0.6:
+            a = onp.ascontiguousarray(a[::-1])[::-1]
+        return a
     n = rng.randint(1 if top else 0, 4)
     if r < 0.6 or (top and r < 0.8 and False):
         return [gen_val(rng, depth - 1, False) for _ in range(n)]
@@ -48,6 +61,27 @@ def like(rng, v):
     a = onp.asarray(v)
     r = onp.array([float(rng.randint(-3, 3)) for _ in range(a.size)]).reshape(a.shape)
     return float(r) if not isinstance(v, onp.ndarray) else r
+
+
+def reorder(v):
+    """the same value with every dict built in the opposite key order"""
+    if isinstance(v, dict):
+        return {k: reorder(v[k]) for k in reversed(list(v))}
+    if isinstance(v, list):
+        return [reorder(t) for t in v]
+    if isinstance(v, tuple):
+        return tuple(reorder(t) for t in v)
+    return v
+
+
+def c_copy(v):
+    if isinstance(v, dict):
+        return {k: c_copy(t) for k, t in v.items()}
+    if isinstance(v, list):
+        return [c_copy(t) for t in v]
+    if isinstance(v, tuple):
+        return tuple(c_copy(t) for t in v)
+    return onp.array(v, order="C", copy=True) if isinstance(v, onp.ndarray) else v
 
 
 def adjoint_ok(f, x, g, vj):
@@ -151,6 +185,8 @@ def main():
             g = like(rng, plain)
             vj = vjp(g)
             ok = veq(val, plain) and adjoint_ok(f, x, g, vj) and deq(vspace(vj).zeros(), vspace(x).zeros())
+            # a cotangent is a mapping: the order in which its dicts were built is immaterial
+            ok = ok and veq(make_vjp(f)(x)[0](reorder(g)), vj)
             v = like(rng, x)
             try:
                 jval, jt = make_jvp(f)(x)(v)
@@ -201,7 +237,8 @@ def main():
             y = like(rng, x)
             ok = bool(onp.all(g1 == g2)) and bool(onp.all(g1 == w)) and veq(unflatten(fx), x) \
                 and bool(onp.all(flatten(unflatten(fx))[0] == fx)) \
-                and bool(onp.all(flatten(vspace(x).add(x, y))[0] == fx + flatten(y)[0]))
+                and bool(onp.all(flatten(vspace(x).add(x, y))[0] == fx + flatten(y)[0])) \
+                and bool(onp.all(flatten(c_copy(x))[0] == fx)) and veq(unflatten(fx), c_copy(x))
             if not ok:
                 out["oracle_bad"].append({"oracle": "flatten", "x": enc(x), "site": {"oracle": "flatten"}})
         except Exception as ex:
